@@ -108,7 +108,10 @@ Definition roundtrip_oracle (claims : json) (triples : list json) (o : json) : o
 Definition oracles_of_readback (rb : json) : oracles :=
   {| o_hash := hash_of_table (jlist (jget "H" rb));
      o_dec := dec_of_table (jlist (jget "dec" rb));
-     o_jwt := jwt_of_table [JArr [jget "jwt" rb; jget "header" rb; jget "payload" rb]];
+     (* jwt-rustcrypto's decode accepts only a payload that is a JSON object (decode.rs: payload.as_object()) *)
+     o_jwt := match jget "payload" rb with
+              | JObj _ => jwt_of_table [JArr [jget "jwt" rb; jget "header" rb; jget "payload" rb]]
+              | _ => fun _ => Fail end;
      o_kb := fun _ _ _ => Fail;
      o_claims := claims_of_table [JArr [jget "claims_seg" rb; jget "payload" rb]] |}.
 
@@ -134,11 +137,12 @@ Definition case_issue_call (input call : json) : verdict :=
     let claims := match claims_with_exp input exp, jbool (jget "cnf" input) with
                   | JObj kvs, true => JObj (obj_insert "cnf" (jget "cnf_value" input) kvs)
                   | c, _ => c end in
-    (* the round trip is a statement about non-empty markings (C01); without any disclosable claim the
-       token carries no _sd_alg and only panic-freedom is required of the holder *)
-    let P := match jlist (jget "paths" input) with
-             | [] => fun o => if obs_is "panic" o then Some "Holder::verify panics" else None
-             | _ => roundtrip_oracle claims (jlist (jget "path_triples" input)) end in
+    (* the round trip: also for an empty marking (C14: every issued SD-JWT is valid) - the token then carries no
+       _sd_alg and is processed with the default sha-256 (repair F18). Claims that are not an object are outside
+       the properties (expect_issue = "any"): only panic-freedom is required there *)
+    let P := if String.eqb (jstr_or_empty (jget "expect_issue" input)) "any"
+             then fun o => if obs_is "panic" o then Some "Holder::verify panics" else None
+             else roundtrip_oracle claims (jlist (jget "path_triples" input)) in
     let v2 := decide P (jget "hverify" call) mh nt "Holder::verify" in
     worst v1 v2
   else v1.
